@@ -14,14 +14,22 @@ import (
 	"os"
 	"sync"
 	"testing"
+	"time"
 
+	"mosn.io/mosn/pkg/server"
 	"pgregory.net/rapid"
 
 	"verif/ev"
 	"verif/rig/mesh"
 )
 
-func TestMain(m *testing.M) { mesh.Boot(); ev.Main(m) }
+func TestMain(m *testing.M) {
+	mesh.Boot()
+	// removing a listener waits up to this long while the listener still counts active requests; a request
+	// that MOSN never completes (which is what this check looks for) would otherwise cost 15 s per case
+	server.SetDrainTime(100 * time.Millisecond)
+	ev.Main(m)
+}
 
 const batchWidth = 16
 
@@ -149,7 +157,7 @@ func TestReplay(t *testing.T) {
 	if err := json.Unmarshal(b, &v); err != nil || v.Scenario == nil {
 		t.Fatalf("not a C03 case: %v", err)
 	}
-	ev.Guard(func() {
+	known := ev.Guard(func() {
 		soft := 0
 		for i := 0; i < 60; i++ {
 			res := runScenario(v.Scenario)
@@ -173,5 +181,9 @@ func TestReplay(t *testing.T) {
 			}
 		}
 	})
+	if known {
+		fmt.Println("replay: the case still violates C03 with the signature of a finding listed in known.d (excluded from the verdict)")
+		return
+	}
 	fmt.Println("replay: no violation in 60 executions")
 }
